@@ -3280,6 +3280,7 @@ def _check_entry_for_changes(
     root_path: bytes,
     filter_blob_callback: Callable[[Blob, bytes], Blob] | None = None,
     trust_ctime: bool = True,
+    safe_prefix: list[bytes] | None = None,
 ) -> bytes | None:
     """Check a single index entry for changes.
 
@@ -3289,10 +3290,22 @@ def _check_entry_for_changes(
       root_path: Root filesystem path
       filter_blob_callback: Optional callback to filter blobs
       trust_ctime: If True, use ctime for change detection (default: True)
+      safe_prefix: Optional cache of verified leading directories, shared
+        between calls made in path order (see verify_leading_dirs)
     Returns: tree_path if changed, None otherwise
     """
     if isinstance(entry, ConflictedIndexEntry):
         # Conflicted files are always unstaged
+        return tree_path
+
+    # A leading directory that was replaced by a symlink: whatever is behind
+    # the link is not this entry (git: has_symlink_leading_path), the file is
+    # gone.
+    try:
+        verify_leading_dirs(
+            tree_path, [] if safe_prefix is None else safe_prefix, root_path
+        )
+    except (InvalidPathError, NotADirectoryError):
         return tree_path
 
     full_path = _tree_to_fs_path(root_path, tree_path)
@@ -3407,11 +3420,17 @@ def get_unstaged_changes(
 
     if not preload_index:
         # Serial processing
+        safe_prefix: list[bytes] = []
         for tree_path, entry in index.iteritems():
             if max_stat is not None and stat_count >= max_stat:
                 return
             result = _check_entry_for_changes(
-                tree_path, entry, root_path, filter_blob_callback, trust_ctime
+                tree_path,
+                entry,
+                root_path,
+                filter_blob_callback,
+                trust_ctime,
+                safe_prefix,
             )
             stat_count += 1
             if result is not None:
